@@ -65,7 +65,9 @@ def entry_points(ctx, eff: Eff) -> list[tuple[FuncInfo, dict]]:
                 consts = {}
                 d = f.defaults()
                 for p in eff.flags_of(f):
-                    if isinstance(d.get(p), ast.Constant):
+                    # behaviour switches (bool defaults: clone=True, …) are fixed at their documented default; a parameter that merely
+                    # defaults to None (start, end, coord, …) is a value the caller provides: both ways are analysed
+                    if isinstance(d.get(p), ast.Constant) and isinstance(d[p].value, bool):
                         consts[p] = d[p].value
                 out.append((f, consts))
     # replace() with new=None only counts
@@ -162,6 +164,7 @@ _EL = "src/odfdo/element.py"
 _T = "src/odfdo/table.py"
 _MD = "src/odfdo/mixin_md.py"
 SEEDS = [
+    Seed("ranged column traversal clears the repeat of the live column group", "fault", _T, '                repeated = juska - before\n                before = juska\n                for _i in range(repeated or 1):\n                    if x <= end:\n                        column = column.clone\n                        column.x = x\n                        if repeated > 1 or (x == start and start > 0):', '                repeated = juska - before\n                before = juska\n                if x == start and start > 0:\n                    column.repeated = None\n                for _i in range(repeated or 1):\n                    if x <= end:\n                        column = column.clone\n                        column.x = x\n                        if repeated > 1:', "R15a"),
     Seed("wrapping a named range rewrites its attributes", "fault", _T,
          "        crange = crange.replace(\".\", \"\")\n        self._set_range(crange)", "        crange = crange.replace(\".\", \"\")\n        self.set_range(crange)", "R15a"),
     Seed("wrapping a header normalises its level", "fault", "src/odfdo/header.py",
